@@ -11,6 +11,8 @@ import (
 	"encoding/json"
 	"io"
 	"os"
+	"strconv"
+	"strings"
 )
 
 // ghost file system of the symbolic build
@@ -24,7 +26,13 @@ var (
 
 func verifLogPath() string { return "/ghost/querylog.jsonl" }
 
+// verifSlowOpen makes opening the log file take time (other goroutines run meanwhile).
+var verifSlowOpen bool
+
 func verifOpenFile(name string, flag int, perm os.FileMode) (*os.File, error) {
+	if verifSlowOpen {
+		verifYield()
+	}
 	verifOpen++
 	return nil, nil
 }
@@ -47,21 +55,36 @@ func verifNewEncoder(w io.Writer) *json.Encoder {
 
 func verifEncode(enc *json.Encoder, v any) error {
 	verifRecords++
+	line := "{\"record\":1}\n"
 	if je, ok := v.(*jsonlEntry); ok {
-		r := verifRec{profile: string(je.ProfileID), device: string(je.DeviceID), fqdn: je.DomainFQDN, qtype: uint16(je.RequestType)}
+		ip := "-"
 		if je.RemoteIP != nil {
-			r.hasIP, r.ip = true, je.RemoteIP.String()
+			ip = je.RemoteIP.String()
 		}
-		verifEncoded = append(verifEncoded, r)
+		// one line per entry: profile|device|fqdn|qtype|ip
+		line = string(je.ProfileID) + "|" + string(je.DeviceID) + "|" + je.DomainFQDN + "|" + strconv.Itoa(int(je.RequestType)) + "|" + ip + "\n"
 	}
-	_, err := verifEncTo.Write([]byte("{\"record\":1}\n"))
+	_, err := verifEncTo.Write([]byte(line))
 	return err
 }
 
-var verifEncoded []verifRec
-
-// verifLoggedRecords returns what was logged, record by record.
-func verifLoggedRecords(path string) []verifRec { return verifEncoded }
+// verifLoggedRecords parses what reached the (ghost) file, record by record.
+func verifLoggedRecords(path string) (recs []verifRec) {
+	for _, ln := range strings.Split(strings.TrimSuffix(string(verifFile), "\n"), "\n") {
+		f := strings.Split(ln, "|")
+		if len(f) != 5 {
+			recs = append(recs, verifRec{fqdn: "<malformed line>"})
+			continue
+		}
+		qt, _ := strconv.Atoi(f[3])
+		r := verifRec{profile: f[0], device: f[1], fqdn: f[2], qtype: uint16(qt)}
+		if f[4] != "-" {
+			r.hasIP, r.ip = true, f[4]
+		}
+		recs = append(recs, r)
+	}
+	return recs
+}
 
 // verifLogLines returns the number of lines and whether the file consists only of
 // complete records written by exactly one Write call each.
@@ -71,6 +94,15 @@ func verifLogLines(path string) (lines int, clean bool) {
 			lines++
 		}
 	}
-	clean = verifWrites == lines && verifOpen == 0 && len(verifFile) == lines*len("{\"record\":1}\n")
+	clean = verifWrites == lines && verifOpen == 0 && (len(verifFile) == 0 || verifFile[len(verifFile)-1] == '\n')
 	return lines, clean
 }
+
+// verifSlowLogPath: opening the log file takes time (a scheduling point).
+func verifSlowLogPath() string {
+	verifSlowOpen = true
+	return verifLogPath()
+}
+
+// verifReleaseLog lets the pending opens finish (nothing to do for the ghost file).
+func verifReleaseLog(path string, writers int) {}
